@@ -27,6 +27,8 @@ from collections import Counter
 VERIF = os.path.dirname(os.path.dirname(os.path.abspath(__file__)))
 LEAN_DIR = os.path.join(VERIF, "lean")
 REPO = os.environ.get("YASTN_REPO", "/repo")
+# experiments on changed copies of the repository write evidence/replays elsewhere (tools/try_seed.py)
+OUT = os.environ.get("VERIF_OUT_DIR") or VERIF
 ALLOWED_AXIOMS = {"propext", "Classical.choice", "Quot.sound"}
 FORBIDDEN = re.compile(r"\bsorry\b|\badmit\b|^\s*axiom\s|native_decide|bv_decide|implemented_by|\bunsafe\s|maxHeartbeats\s+0\b")
 
@@ -335,7 +337,7 @@ def match_known(pid, finding, known):
 # ----------------------------------------------------------------------------------------
 
 def write_evidence(ctx: Ctx, level, obligations, discharged, checker_cmd, violations, extra_assumptions=()):
-    os.makedirs(os.path.join(VERIF, "evidence"), exist_ok=True)
+    os.makedirs(os.path.join(OUT, "evidence"), exist_ok=True)
     cov = {
         "evaluations": int(ctx.evaluations),
         "distinct_nontrivial": int(len(ctx.nontrivial)),
@@ -372,7 +374,7 @@ def write_evidence(ctx: Ctx, level, obligations, discharged, checker_cmd, violat
         "wall_s": round(ctx.elapsed(), 2),
         "violations": int(violations),
     }
-    path = os.path.join(VERIF, "evidence", f"{ctx.pid}.json")
+    path = os.path.join(OUT, "evidence", f"{ctx.pid}.json")
     tmp = path + ".tmp"
     with open(tmp, "w") as f:
         json.dump(ev, f, indent=1, sort_keys=True)
@@ -381,12 +383,12 @@ def write_evidence(ctx: Ctx, level, obligations, discharged, checker_cmd, violat
 
 
 def write_replay(ctx: Ctx, n, obj):
-    d = os.path.join(VERIF, "replays")
+    d = os.path.join(OUT, "replays")
     os.makedirs(d, exist_ok=True)
     path = os.path.join(d, f"{ctx.pid}-{ctx.tier}-{ctx.seed}-{n}.json")
     with open(path, "w") as f:
         json.dump(jsonable(obj), f, indent=1, sort_keys=True)
-    return os.path.relpath(path, VERIF)
+    return os.path.relpath(path, VERIF) if OUT == VERIF else path
 
 
 # ----------------------------------------------------------------------------------------
